@@ -1348,6 +1348,13 @@ class Engine:
             h(self, st, fr, args, ins)
             fr.i += 1
             return
+        if st.world.get("inline_go") and isinstance(fnv, Closure):
+            # zzverif.InlineGo: the goroutine runs to completion here (sequential schedule; the harness's goroutines only
+            # fill buffered channels and return)
+            fr.i += 1
+            self.push_call(st, fnv.fn, list(args), fnv.binds)
+            st.frames[-1].discard = True
+            return
         # record the goroutine as not run; harnesses decide whether that matters
         st.goroutines = st.goroutines + ((fnv, tuple(args)),)
         if not self.allow_go:
